@@ -7,18 +7,22 @@ pub mod c02;
 pub mod c03;
 pub mod c04;
 pub mod c05;
+pub mod c06;
 pub mod c07;
 pub mod c11;
 pub mod c17;
+pub mod c19;
 
 pub fn make(id: &str, run: &mut crate::run::Run) -> Option<Box<dyn Prop>> {
 	match id {
 		"C01" => Some(Box::new(c01::C01::new(run))),
 		"C02" => Some(Box::new(c02::C02::new(run))),
 		"C03" => Some(Box::new(c03::C03::new(run))),
+		"C06" => Some(Box::new(c06::C06::new(run))),
 		"C07" => Some(Box::new(c07::C07::new(run))),
 		"C11" => Some(Box::new(c11::C11::new(run))),
 		"C17" => Some(Box::new(c17::C17::new(run))),
+		"C19" => Some(Box::new(c19::C19::new(run))),
 		"C05" => Some(Box::new(c05::C05::new(run))),
 		"C04" => Some(Box::new(c04::C04::new(run))),
 		_ => None,
@@ -30,11 +34,13 @@ pub fn make_for_replay(id: &str, run: &mut crate::run::Run) -> Option<Box<dyn Pr
 	make(id, run)
 }
 
-pub const ALL: &[&str] = &["C01", "C02", "C03", "C04", "C05", "C07", "C11", "C17"];
+pub const ALL: &[&str] = &["C01", "C02", "C03", "C04", "C05", "C06", "C07", "C11", "C17", "C19"];
 
 /// (runs, max steps per run) per tier
 pub fn budget(id: &str, thorough: bool) -> (u64, usize) {
 	match (id, thorough) {
+		("C06", false) => (120, 70),
+		("C06", true) => (600, 90),
 		(_, false) => (160, 45),
 		(_, true) => (3000, 60),
 	}
@@ -57,6 +63,8 @@ pub fn rule(id: &str) -> String {
 		"C11" => "seeded proof-carrying sends between 3 wallets, replies altered on their proof fields / amount / participant key, then export by the sender and verification by sender, recipient and a third wallet of the proof and of single-field mutations of it, with the kernel not mined, mined, and re-organised away; a case is one finalize (mutation x answered-by-requested-recipient x outcome) or one verification (mutation x chain state x outcome)".into(),
 		"C07" => "seeded honest histories (victims with pending sends, invoices, late-locked transactions) interleaved with a Byzantine peer on the foreign API: harvested slates replayed to receive_tx/finalize_tx, one-field mutations of them, forged slates carrying ids of the victim's pending transactions, build_coinbase with guessable key ids of existing outputs, unknown accounts; a case is one foreign call (method x slate class x outcome); every case reached wallet code".into(),
 		"C17" => "seeded histories with ttl_blocks on sends and cutoffs rewritten on the wire to h-1, h, h+1, h+2, 0, u64::MAX, 1 relative to the height the receiving wallet last observed, many single-block mines and refreshes; a case is one receive/pay/finalize of a slate (step x cutoff relation x outcome) or one outstanding entry seen by a successful refresh (expired or not); non-trivial when a cutoff is present".into(),
+		"C19" => "seeded histories (all entry types, several accounts, cancelled / confirmed / outstanding entries) under a virtual clock that jumps forwards and backwards, so logs have equal timestamps, creation order != id order and confirmation before creation; after every few steps retrieve_txs is called with query arguments drawn field by field (absent / equal to a stored value / one below / one above), all sort fields and orders, limits 0,1,2,3,100, and look-ups by log id and slate id; a case is one query (set of fields present); non-trivial when the active account's log has >=2 entries that the query's fields discriminate".into(),
+		"C06" => "seeded histories (8-26 steps) bring 2-3 real wallets to a state; the generator's next natural wallet operation (init, lock, receive, finalize, invoice steps, cancel, refresh, scan, create account) is the target; from a directory snapshot it is run fault-free once (lists the persistence points visited: every LMDB batch commit pre/post incl. key-index bumps, stored-transaction file pre/post) and then once per point with a crash, once with a failing write, and for the stored-transaction file once per truncation length in {0,1,odd middle,len-1} (+12 sampled lengths in thorough); a case is one (pre-state digest, operation, point, fault kind / truncation length); non-trivial when the point was reached and the fault fired".into(),
 		_ => "seeded histories".into(),
 	}
 }
